@@ -1,0 +1,90 @@
+//go:build verif
+// +build verif
+
+package controller
+
+// Contracts for the deductive verifier in /verif (govc). Comment-only file.
+
+//@ func (*Controller).getProc
+//@   prop C08
+//@   requires c != nil
+//@   modifies nothing
+//@   ensures @lookup result1 == has(c.procs, name) && (result1 ==> result0 == c.procs[name])
+
+//@ func (*Controller).addProc
+//@   prop C08
+//@   requires ctlwf(c) && proc != nil
+//@   modifies mapof(c.procs)
+//@   ensures @registered-under-its-own-name ctlwf(c) && has(c.procs, pname(proc)) && c.procs[pname(proc)] == proc
+//@   ensures @others-untouched forall n string :: n != pname(proc) ==> has(c.procs, n) == old(has(c.procs, n)) && (has(c.procs, n) ==> c.procs[n] == old(c.procs[n]))
+
+//@ func (*Controller).removeProcLocked
+//@   prop C08
+//@   requires ctlwf(c) && proc != nil
+//@   modifies mapof(c.procs)
+//@   ensures @unregistered ctlwf(c) && !has(c.procs, pname(proc))
+//@   ensures @others-untouched forall n string :: n != pname(proc) ==> has(c.procs, n) == old(has(c.procs, n)) && (has(c.procs, n) ==> c.procs[n] == old(c.procs[n]))
+
+//@ func (*Controller).removeProc
+//@   prop C08
+//@   requires ctlwf(c) && proc != nil
+//@   modifies mapof(c.procs)
+//@   ensures @unregistered ctlwf(c) && !has(c.procs, pname(proc))
+//@   ensures @others-untouched forall n string :: n != pname(proc) ==> has(c.procs, n) == old(has(c.procs, n)) && (has(c.procs, n) ==> c.procs[n] == old(c.procs[n]))
+
+//@ func (*Controller).tryEnsureProc
+//@   prop C08
+//@   requires ctlwf(c)
+//@   modifies mapof(c.procs)
+//@   ensures @registered-when-created ctlwf(c) && (p != nil ==> svcName != "" && has(c.procs, svcName) && c.procs[svcName] == p)
+//@   ensures @nothing-registered-otherwise p == nil ==> forall n string :: has(c.procs, n) == old(has(c.procs, n)) && (has(c.procs, n) ==> c.procs[n] == old(c.procs[n]))
+//@   ensures @others-untouched forall n string :: n != svcName ==> has(c.procs, n) == old(has(c.procs, n)) && (has(c.procs, n) ==> c.procs[n] == old(c.procs[n]))
+
+//@ func (*Controller).handleSvcAdd
+//@   prop C08
+//@   requires ctlwf(c) && epsok(endpoints)
+//@   modifies mapof(c.procs), atombool
+//@   ensures @well-formed ctlwf(c)
+//@   ensures @an-existing-processor-is-kept old(has(c.procs, svcName)) ==> has(c.procs, svcName) && c.procs[svcName] == old(c.procs[svcName])
+//@   ensures @others-untouched forall n string :: n != svcName ==> has(c.procs, n) == old(has(c.procs, n)) && (has(c.procs, n) ==> c.procs[n] == old(c.procs[n]))
+
+//@ func (*Controller).handleSvcDel
+//@   prop C08
+//@   requires ctlwf(c)
+//@   modifies mapof(c.procs), procseq, stopat, lastop
+//@   ensures @removed ctlwf(c) && !has(c.procs, svcName)
+//@   ensures @stopped-exactly-when-it-ran (old(has(c.procs, svcName)) ==> procseq == old(procseq) + 1 && stopat == procseq && lastop == old(c.procs[svcName])) && (!old(has(c.procs, svcName)) ==> procseq == old(procseq))
+//@   ensures @others-untouched forall n string :: n != svcName ==> has(c.procs, n) == old(has(c.procs, n)) && (has(c.procs, n) ==> c.procs[n] == old(c.procs[n]))
+
+//@ func (*Controller).handleSvcEndpointsAdd
+//@   prop C08
+//@   requires ctlwf(c) && epsok(endpoints)
+//@   modifies procseq, hostaddat, lastop, atombool
+//@   ensures @applied-to-the-named-processor-only (len(endpoints) > 0 && has(c.procs, svcName) ==> procseq == old(procseq) + 1 && hostaddat == procseq && lastop == c.procs[svcName]) && (!(len(endpoints) > 0 && has(c.procs, svcName)) ==> procseq == old(procseq))
+
+//@ func (*Controller).handleSvcEndpointsRemove
+//@   prop C08
+//@   requires ctlwf(c) && epsok(endpoints)
+//@   modifies procseq, hostrmat, lastop, atombool
+//@   ensures @applied-to-the-named-processor-only (len(endpoints) > 0 && has(c.procs, svcName) ==> procseq == old(procseq) + 1 && hostrmat == procseq && lastop == c.procs[svcName]) && (!(len(endpoints) > 0 && has(c.procs, svcName)) ==> procseq == old(procseq))
+
+//@ func (*Controller).handleSvcConfigUpdate
+//@   prop C08
+//@   requires ctlwf(c)
+//@   modifies procseq, cfgupdat, lastop
+//@   ensures @applied-to-the-named-processor-only (has(c.procs, svcName) ==> procseq == old(procseq) + 1 && cfgupdat == procseq && lastop == c.procs[svcName]) && (!has(c.procs, svcName) ==> procseq == old(procseq))
+
+//@ func (*Controller).handleEvent
+//@   prop C08
+//@   requires ctlwf(c) && evt != nil
+//@   requires @events-carry-complete-endpoints (typeis(evt, "*config.SvcAddEvent") ==> ifaceptr(evt, "*config.SvcAddEvent") != nil && epsok(ifaceptr(evt, "*config.SvcAddEvent").Endpoints)) && (typeis(evt, "*config.SvcEndpointEvent") ==> ifaceptr(evt, "*config.SvcEndpointEvent") != nil && epsok(ifaceptr(evt, "*config.SvcEndpointEvent").Added) && epsok(ifaceptr(evt, "*config.SvcEndpointEvent").Removed)) && (typeis(evt, "*config.SvcRemoveEvent") ==> ifaceptr(evt, "*config.SvcRemoveEvent") != nil) && (typeis(evt, "*config.SvcConfigEvent") ==> ifaceptr(evt, "*config.SvcConfigEvent") != nil)
+//@   modifies mapof(c.procs), procseq, hostaddat, hostrmat, cfgupdat, stopat, lastop, atombool
+//@   ensures @well-formed ctlwf(c)
+//@   ensures @endpoint-deltas-applied-as-computed-removals-first typeis(evt, "*config.SvcEndpointEvent") && hostaddat > old(procseq) && hostrmat > old(procseq) ==> hostrmat < hostaddat
+
+//@ func endpointsToHosts
+//@   prop C08
+//@   requires @endpoints-present epsok(endpoints)
+//@   modifies atombool
+//@   ensures @one-host-per-endpoint-in-order len(result) == len(endpoints) && forall k int :: 0 <= k && k < len(result) ==> result[k] != nil && result[k].Type == ite(endpoints[k].Type == 1, 1, 0)
+//@   loop 0 invariant (cap(hosts) == 0 || fresh(hosts)) && len(hosts) == rangeindex + 1 && forall k int :: 0 <= k && k < len(hosts) ==> hosts[k] != nil && hosts[k].Type == ite(endpoints[k].Type == 1, 1, 0)
